@@ -63,7 +63,44 @@ def _clamp(x, lo, hi):
 BASE_NS = 10_000_000_000
 
 
+def _burst(rounds):
+    """fast node 0 stamps k local events and a send at one physical instant, slow node 1 receives the newest message
+    (sometimes an older one again): the receiver's last physical component ties with the incoming one while its own clock
+    is behind both and the incoming logical counter is ahead"""
+    steps, sent = [], 0
+    for k, again in rounds:
+        steps += [[0, 0, 0, 0]] * int(k)
+        steps.append([1, 0, 0, 0])
+        steps.append([2, 1, 0, sent])
+        if again and sent:
+            steps.append([2, 1, 0, sent - 1])
+        sent += 1
+    return steps
+
+
 def clocks_strategy(tier):
+    return st.one_of(general_clocks_strategy(tier), general_clocks_strategy(tier), general_clocks_strategy(tier),
+                     burst_clocks_strategy(tier))
+
+
+def burst_clocks_strategy(tier):
+    tail = st.lists(st.tuples(st.sampled_from([0, 1, 2, 2]), st.integers(0, 2), st.sampled_from([0, 0, 1]), st.integers(0, 10)).map(list),
+                    max_size=6)
+    return st.fixed_dictionaries({
+        "n": st.sampled_from([2, 2, 3]),
+        "init": st.lists(st.integers(0, 6), max_size=3),
+        "skew": st.sampled_from([[10**9, 0], [3 * 10**9, -10**9], [5000, 0], [1, 0], [0, -5000, 10**9]]),
+        "ppm": st.just([0]),
+        "vc_ids": st.sampled_from(["full", "self"]),
+        "hlc": st.sampled_from(["wall", "node-skew", "node-both"]),
+        "wire": st.booleans(),
+        "tempo": st.sampled_from([0, 3]),
+        "steps": st.tuples(st.lists(st.tuples(st.integers(0, 4), st.booleans()), min_size=2, max_size=6).map(_burst), tail)
+                   .map(lambda t: t[0] + t[1]),
+    })
+
+
+def general_clocks_strategy(tier):
     big = tier == "thorough"
     step = st.tuples(st.sampled_from([0, 1, 1, 2, 2, 2]), st.integers(0, 4),
                      st.sampled_from([0, 0, 0, 0, 1, 10, 1000, 10**6, 10**9]), st.integers(0, 40)).map(list)
@@ -77,7 +114,9 @@ def clocks_strategy(tier):
         "wire": st.booleans(),
         # tempo: 0 = as generated; 1 = identical physical clocks on all nodes; 2 = additionally global time frozen
         # (every HLC comparison is then decided by the logical component alone)
-        "tempo": st.sampled_from([0, 0, 1, 2]),
+        # 3 = global time frozen but the generated (different) skews kept: a fast node stamps many events at one physical
+        # instant with growing logical counters while a slow receiver's own clock stays behind both
+        "tempo": st.sampled_from([0, 0, 1, 2, 3, 3]),
         "steps": st.lists(step, min_size=1, max_size=70 if big else 32),
     })
 
@@ -94,8 +133,8 @@ def ex_clocks(case):
     skew = [int(_at(case.get("skew") or [], i)) for i in range(n)]
     ppm = [max(-999_999, int(_at(case.get("ppm") or [], i))) for i in range(n)]
     mode = case.get("hlc", "wall")
-    tempo = _clamp(case.get("tempo", 0) or 0, 0, 2)
-    if tempo >= 1:
+    tempo = _clamp(case.get("tempo", 0) or 0, 0, 3)
+    if tempo in (1, 2):
         skew, ppm = [skew[0]] * n, [ppm[0]] * n
     g = [BASE_NS]
     clock = Clock(Instant(BASE_NS))
@@ -128,7 +167,7 @@ def ex_clocks(case):
     msgs = []        # (send event index, lamport ts, vector dict, hlc ts)
     for s in case.get("steps") or []:
         kind, i, dt, m = (list(s) + [0, 0, 0, 0])[:4]
-        kind, i, dt, m = int(kind) % 3, int(i) % n, (0 if tempo == 2 else max(0, int(dt))), int(m)
+        kind, i, dt, m = int(kind) % 3, int(i) % n, (0 if tempo >= 2 else max(0, int(dt))), int(m)
         g[0] += dt
         clock.update(Instant(g[0]))
         mask, hp = 0, 0
